@@ -1,7 +1,13 @@
 /* h_C01k.c -- calendar kernels of evrrul.c against spec_cal.h (C01, C17);
  * the real translation unit is included, every function below is static there */
 #include "h_common.h"
+#include "spec_view.h"
+#include <string.h>
 #include "evrrul.c"
+#if !defined REPLAY
+/* the +-383 container (other translation unit), needed by shift() */
+# include "bitint.c"
+#endif
 
 #define IN_DATE()						\
 	IN_RANGE(unsigned, y, 1901, 2099);			\
@@ -126,4 +132,35 @@ void h_C17_easter(void)
 	ASSERT((int)easter_get_yday(y) == S_YDAY(y, S_EASTER_M(y), S_EASTER_D(y)), "easter_get_yday == day of the year of Easter Sunday (anonymous Gregorian computus)");
 	ASSERT(S_WDAY(y, S_EASTER_M(y), S_EASTER_D(y)) == 7, "Easter is a Sunday");
 	SENTINEL("easter");
+}
+
+/* SHIFT=N (calendar days) on a single candidate: the result is the date N
+ * days later (earlier), filed under the year it falls in (bucket 0 = same
+ * year, 1 = previous, 2 = next).  The candidate loops treat every member on
+ * its own, so the singleton case carries the general one. */
+void h_C17_shift_days(void)
+{
+	IN_RANGE(unsigned, y, 1902, 2098);
+	IN_RANGE(unsigned, m, 1, 12);
+	IN_RANGE(unsigned, d, 1, 31);
+#if !defined SHIFT_NMAX
+# define SHIFT_NMAX	62
+#endif
+	IN_RANGE(int, n, -SHIFT_NMAX, SHIFT_NMAX);
+	ASSUME(S_VALID_DATE(y, m, d) && n != 0);
+	static bitint383_t cand[3];
+	memset(cand, 0, sizeof(cand));
+	ass_bi383(&cand[0], (int)pack_cand(m, d));
+	shift(cand, y, (echs_shift_t)(n * 65536));
+	/* exactly one candidate comes out */
+	unsigned c0 = CNT_383(&cand[0]), c1 = CNT_383(&cand[1]), c2 = CNT_383(&cand[2]);
+	ASSERT(!BS_383(&cand[0]) && !BS_383(&cand[1]) && !BS_383(&cand[2]) && c0 + c1 + c2 == 1U, "SHIFT=N: one date in, one date out");
+	unsigned b = c0 ? 0U : c1 ? 1U : 2U;
+	struct md_s r = unpack_cand((unsigned)cand[b].neg[0]);
+	unsigned ry = b == 0U ? y : b == 1U ? y - 1U : y + 1U;
+	ASSERT(S_VALID_DATE(ry, r.m, r.d), "SHIFT=N: the shifted date is a real date of the year it is filed under");
+	ASSERT(S_DAYNO(ry, r.m, r.d) == S_DAYNO(y, m, d) + n, "SHIFT=N moves the date by exactly N calendar days");
+	if (b == 2U && S_LEAP(y) != S_LEAP(y + 1U) && r.m >= 3U) { SENTINEL("shift across next year's February"); }
+	if (b == 1U) { SENTINEL("shift into the previous year"); }
+	SENTINEL("shift days");
 }
